@@ -15,6 +15,7 @@ from __future__ import annotations
 import ast
 
 from ..core import facets, sym, symeval
+from ..core.absint import Config, Interp
 from ..core.loader import AnalysisError, Project
 from ..core.values import Arr, Sc
 from .distances import unmodelled_in
@@ -90,31 +91,67 @@ def check_pixel(project: Project, rep, weight, kernel, sigma, skew, label):
 
 
 def check_fast_guard(project: Project, rep):
-    """the isotropic fast path is guarded by sigma[0][0]==sigma[1][1] and sigma[0][1]==0"""
+    """PI-FAST, decided by executing `_transform` symbolically with the built-in Gaussian kernel and a generic covariance
+    [[sxx, sxy], [syx, syy]] while observing which evaluator is reached: the closed-form isotropic path (norm_cdf on the
+    pixel edges) or the general path (the kernel itself). The isotropic path may be taken only when the variances are
+    equal and the covariance entry is zero."""
+    import random
+    from ..core.values import DictV, FuncV, Seq
+    from .images_common import S, grid
+    from .distances import dgm_input
     fi = project.function(TR)
-    f = fi.node
-    import re
-    conds = []
-    for n in ast.walk(f):
-        if isinstance(n, ast.If) and "==" in ast.unparse(n.test) and re.search(r"\w+\[\d\]\[\d\]", ast.unparse(n.test)):
-            conds.append(n)
-    ok = False
-    for n in conds:
-        parts = [ast.unparse(v).replace(" ", "") for v in (n.test.values if isinstance(n.test, ast.BoolOp) and isinstance(n.test.op, ast.And)
-                                                           else [n.test])]
-        eq = any(re.fullmatch(r"(\w+)\[0\]\[0\]==\1\[1\]\[1\]|(\w+)\[1\]\[1\]==\2\[0\]\[0\]", p_) for p_ in parts)
-        zero = any(re.fullmatch(r"\w+\[(0\]\[1|1\]\[0)\]==0(\.0)?|0(\.0)?==\w+\[(0\]\[1|1\]\[0)\]", p_) for p_ in parts)
-        if eq and zero:
-            ok = True
-            rep.discharged("PI-FAST", fi, n, "fast path requires equal variances and zero covariance")
-        elif eq or zero:
-            rep.refuted("PI-FAST", fi, n, f"the isotropic fast path is guarded by `{ast.unparse(n.test)}` only: "
-                                          + ("a correlated Gaussian with equal variances" if eq else
-                                             "an axis-aligned Gaussian with unequal variances") + " takes it and is imaged as "
-                                                                                                  "isotropic")
-            ok = True
-    if not ok:
-        rep.unmodelled("PI-FAST", fi, f, "fast-path guard not found")
+    seen = {"fast": [], "general": []}
+
+    def stub(kind):
+        def h(I, bound, n):
+            seen[kind].append((sym.And(*I.path) if I.path else sym.TRUE, n))
+            return I.unknown("observed-" + kind, n)
+        return h
+    I = Interp(project, Config(nonempty={("rows", "X"), ("rows", "Bg"), ("rows", "Pg")}, finite_inputs={"X", "bg", "pg"},
+                               flags={"stub_func": {f"{KMOD}.norm_cdf": stub("fast"), f"{KMOD}.gaussian": stub("general")}}))
+    res = Seq([Sc(sym.add(sym.Size(("rows", "Bg")), sym.Num(-1))), Sc(sym.add(sym.Size(("rows", "Pg")), sym.Num(-1)))], "tuple")
+    sig = Seq([Seq([Sc(S("sxx")), Sc(S("sxy"))]), Seq([Sc(S("syx")), Sc(S("syy"))])])
+    try:
+        I.run(TR, {"pers_dgm": dgm_input("X"), "skew": Sc(sym.TRUE), "resolution": res,
+                   "weight": FuncV("repo", f"{WMOD}.persistence"), "weight_params": DictV({"n": Sc(S("n"))}),
+                   "kernel": FuncV("repo", f"{KMOD}.gaussian"), "kernel_params": DictV({"sigma": sig}),
+                   "_bpnts": grid("bg", "Bg"), "_ppnts": grid("pg", "Pg")})
+    except Exception as ex:
+        rep.note(f"PI-FAST: symbolic execution stopped after the dispatch ({type(ex).__name__})")
+    if not seen["fast"] or not seen["general"]:
+        rep.unmodelled("PI-FAST", fi, fi.node, f"fast-path guard not found (isotropic evaluator reached: {bool(seen['fast'])}, "
+                                               f"general evaluator reached: {bool(seen['general'])})")
+        return
+    cases = [  # (sxx, syy, sxy) -> the fast path is admissible
+        ((1.3, 1.3, 0.0), True), ((1.3, 0.7, 0.0), False), ((1.3, 1.3, 0.4), False), ((1.3, 1.3, -0.4), False),
+        ((1.3, 1.3, 1e-9), False), ((1.3, 1.3 + 1e-9, 0.0), False), ((0.2, 2.0, 0.1), False)]
+    try:
+        bad = None
+        for (sxx, syy, sxy), admissible in cases:
+            pt = symeval.Point(random.Random(5))
+            pt.syms.update({"sxx": sxx, "syy": syy, "sxy": sxy, "syx": sxy, "n": 1.0})
+            fast = any(bool(symeval.ev(c, pt)) for c, _ in seen["fast"])
+            gen = any(bool(symeval.ev(c, pt)) for c, _ in seen["general"])
+            if fast and not admissible:
+                bad = (sxx, syy, sxy)
+                break
+            if not fast and not gen:
+                rep.unmodelled("PI-FAST", fi, fi.node, f"no evaluator reached for sigma=[[{sxx},{sxy}],[{sxy},{syy}]]")
+                return
+    except symeval.NotEvaluable as ex:
+        rep.unmodelled("PI-FAST", fi, fi.node, f"dispatch condition not evaluable ({ex})")
+        return
+    node = seen["fast"][0][1]
+    if bad is None:
+        rep.discharged("PI-FAST", fi, node, "the isotropic closed form is reached only for equal variances and zero covariance "
+                                            "(every other covariance goes to the kernel itself)")
+    else:
+        sxx, syy, sxy = bad
+        rep.refuted("PI-FAST", fi, node,
+                    f"the isotropic fast path is taken for sigma=[[{sxx},{sxy}],[{sxy},{syy}]] (guard: "
+                    f"{sym.show(sym.Or(*[c for c, _ in seen['fast']]))[:140]}): " +
+                    ("a correlated Gaussian" if sxy != 0 else "an axis-aligned Gaussian with unequal variances") +
+                    " is imaged as isotropic", construct=f"{TR}: fast-path guard")
 
 
 def check_registry(project: Project, rep):
@@ -152,14 +189,25 @@ def check_registry(project: Project, rep):
             else:
                 rep.refuted("PI-REG", ens, ens.node, f"the name '{name}' is bound to {tgt}, not to {mod}.{name}",
                             construct=f"{ens.qualname}: '{name}' binding")
-    defaults = [n for n in ast.walk(init.node) if isinstance(n, ast.Assign) and isinstance(n.targets[0], ast.Name)
-                and n.targets[0].id in ("weight", "kernel")]
-    for n in defaults:
-        t = project.resolve(init.module, n.value, set())
-        if t in project.functions:
-            rep.discharged("PI-REG", init, n, f"default {n.targets[0].id} is {t}", nontrivial=False)
+    # defaults: decided by constructing an imager symbolically with no arguments and reading what it stores
+    from ..core.values import FuncV
+    try:
+        I = Interp(project, Config())
+        obj = I.construct("persim.images.PersistenceImager", [], {}, None)
+    except Exception as ex:
+        rep.unmodelled("PI-REG", init, init.node, f"default construction not modelled: {type(ex).__name__}")
+        return
+    for attr, want in (("weight", "persim.images_weights.persistence"), ("kernel", "persim.images_kernels.gaussian")):
+        v = obj.attrs.get(attr)
+        if isinstance(v, FuncV) and v.kind == "repo" and v.target in project.functions:
+            if v.target == want:
+                rep.discharged("PI-REG", init, init.node, f"default {attr} is {v.target}", nontrivial=False)
+            else:
+                rep.refuted("PI-REG", init, init.node, f"default {attr} is {v.target}, not the documented {want}")
+        elif v is None:
+            rep.unmodelled("PI-REG", init, init.node, f"default {attr} not stored under that name")
         else:
-            rep.refuted("PI-REG", init, n, f"default {n.targets[0].id} `{ast.unparse(n.value)}` is not a built-in function")
+            rep.refuted("PI-REG", init, init.node, f"default {attr} `{v!r}` is not a built-in function"[:160])
 
 
 def run(project: Project, rep, tier: str):
